@@ -3,9 +3,9 @@
 name=$1; shift; ids=${@:-${name%-*}}; wt=/tmp/seedone-$name-$$
 cd /verif
 git -C /repo worktree add -q --detach "$wt" HEAD || exit 2
-trap 'git -C /repo worktree remove --force "$wt"' EXIT
+trap 'git -C /repo worktree remove --force "$wt"; rm -rf "$wt.out"' EXIT
 git -C "$wt" apply /verif/seeded/$name/patch.diff || { echo "$name: patch does not apply"; exit 2; }
 for id in $ids; do
-  res=$(LITHIUM_REPO=$wt timeout 1500 ./check $id 2>&1); rc=$?
+  res=$(VERIF_OUT=$wt.out LITHIUM_REPO=$wt timeout 1500 ./check $id 2>&1); rc=$?
   echo "== $name $id rc=$rc $(echo "$res" | grep -a -E '^VIOLATION' | head -1) $(echo "$res" | grep -a -E '^DETAIL' | head -1 | tr -c '[:print:]' '?' | cut -c1-140)"
 done
